@@ -160,6 +160,8 @@ Proof.
       * destruct s; [left; reflexivity | discriminate].
       * destruct (IH s x H i Hi) as [Hs | [j [Hj Hn]]]; [left; assumption|].
         right. exists (S j). split; [lia | exact Hn].
+      * destruct (IH s x H i Hi) as [Hs | [j [Hj Hn]]]; [left; assumption|].
+        right. exists (S j). split; [lia | exact Hn].
 Qed.
 
 Lemma reader_order_meaning tr : reader_orderb false false tr = true ->
@@ -180,13 +182,32 @@ Lemma check_C14_spec c :
   check_C14 c = true <->
   match c with
   | CReader tr failed => reader_orderb false false tr = true /\ failed = false
+  | CMount tr failed => reader_freshb true tr = true /\ failed = false
   | CWriter tr n => writer_orderb false tr = true /\ n = 0
   | CWriterSem v0 tr => wfb v0 tr = true
   end.
 Proof.
-  destruct c as [tr f | tr n | v0 tr]; cbn; [rewrite andb_true_iff | rewrite andb_true_iff | tauto].
+  destruct c as [tr f | tr f | tr n | v0 tr]; cbn; [rewrite andb_true_iff | rewrite andb_true_iff | rewrite andb_true_iff | tauto].
+  - rewrite negb_true_iff. tauto.
   - rewrite negb_true_iff. tauto.
   - rewrite Nat.eqb_eq. tauto.
+Qed.
+
+(* freshness oracle: between a snapshot listing and a later use of repository data the index is listed *)
+Lemma reader_stale_needs_index l : forall r, reader_freshb false (l ++ RUse :: r) = true -> In RListIdx l.
+Proof.
+  induction l as [|o l IH]; intros r H; cbn in H; [discriminate|].
+  destruct o; cbn [reader_freshb] in H; try discriminate; try (right; eapply IH; eauto; fail).
+  left; reflexivity.
+Qed.
+
+Lemma reader_fresh_between l1 : forall f l2 r,
+  reader_freshb f (l1 ++ RListSnap :: l2 ++ RUse :: r) = true -> In RListIdx l2.
+Proof.
+  induction l1 as [|o l1 IH]; intros f l2 r H; cbn [app] in H.
+  - cbn [reader_freshb] in H. eapply reader_stale_needs_index; eauto.
+  - destruct o; cbn [reader_freshb] in H; try (eapply IH; eauto; fail).
+    destruct f; [eapply IH; eauto | discriminate].
 Qed.
 
 (* an observed writer stream accepted by the oracle is exactly a premise of the reader theorem *)
